@@ -147,6 +147,7 @@ class Driver:
         self.alias_twin = 0.25        # equal sub-trees of a rule written once and referred to by a YAML alias (same object twice)
         self.compile_twice = 0.08
         self.inert_config = 0.15
+        self.decoy_twin = 0.08        # another rule (other full-match flags) loaded between building this matcher and running it
         self.allow_any_order_defs = False     # C05: capture definitions inside $and_any_order are judged too (open finding F21)
         self.other_listing = None     # path of a copy of the previous listing of this shard
         self.other_range_safe = False
@@ -326,9 +327,33 @@ class Driver:
                     c["reuse"] = {"other": open(self.other_listing).read(), "search": search, "only_addr": only_addr}
                     ctx.disagreement(c, f"one MasterOfPuppets object used on listing A then on this listing ({search}-match, only_addr={only_addr}) reports "
                                         f"{str(rs[1][1] if rs[0] == 'ok' else rs[1:])[:200]}; a fresh object reports {str(want)[:200]}")
+            if o.status == "ok" and ctx.rng.random() < self.decoy_twin:
+                self.decoy_case(doc, text, prep, o, desc)
             if self.extra:
                 self.extra(self, doc, text, prep, o)
         return any_found
+
+    def decoy_case(self, doc, text, prep, o, desc):
+        """A rule set prepared up front: the matcher of this rule is built, then the matcher of ANOTHER rule with the opposite
+        full-match flags (all other configuration equal) is built, then this one is run. Each rule is judged under its own flags."""
+        ctx = self.ctx
+        cfg = dict(doc.get("config") or {})
+        other = dict(cfg)
+        other["mnemonics-full-match"] = not cfg.get("mnemonics-full-match", False)
+        other["operands-full-match"] = not cfg.get("operands-full-match", False)
+        dp = self.ws.write("decoy.yaml", real.dump_rule({"config": other, "pattern": [{"nop": []}, "ret"]}))
+        search = ctx.rng.choice(["all", "first"])
+        b1 = real.build(self.ws.path("rule.yaml"), prep.path, ret="list", search=search, macros=self.macros)
+        b2 = real.build(dp, prep.path, ret="bool", macros=self.macros)
+        r1 = real.run(b1)
+        ctx.ran(2)
+        ctx.event("matcher_run_after_a_rule_with_other_flags_was_loaded")
+        want = o.hits if search == "all" else o.hits[:1]
+        if b2[0] != "ok" or r1[0] != "ok" or list(r1[1]) != want:
+            c = dsl.case_doc(text, prep, desc + " / decoy rule loaded before the run")
+            c["decoy"] = {"config": other, "search": search}
+            ctx.disagreement(c, f"matcher built, then a second rule with config {other} loaded, then the first matcher run ({search}-match): "
+                                f"{str(r1[1:2])[:200]}; run on its own it reports {str(want)[:200]}")
 
     def loop(self, quick: int, thorough: int):
         ctx = self.ctx
@@ -397,6 +422,15 @@ def replay_dsl(ctx, case: dict, quirks=(), classify=None):
             want = [h.split("::")[0] for h in want]
         if rs[0] != "ok" or rs[1][1] != want:
             ctx.disagreement(case, f"reused matcher reports {str(rs[1:])[:200]}; a fresh object reports {str(want)[:200]}")
+    if case.get("decoy") and o.status == "ok":
+        dc = case["decoy"]
+        dp = ws.write("decoy.yaml", real.dump_rule({"config": dc["config"], "pattern": [{"nop": []}, "ret"]}))
+        b1 = real.build(ws.path("rule.yaml"), prep.path, ret="list", search=dc["search"])
+        b2 = real.build(dp, prep.path, ret="bool")
+        r1 = real.run(b1)
+        want = o.hits if dc["search"] == "all" else o.hits[:1]
+        if b2[0] != "ok" or r1[0] != "ok" or list(r1[1]) != want:
+            ctx.disagreement(case, f"matcher built, a second rule with config {dc['config']} loaded, then run: {str(r1[1:2])[:200]}; on its own {str(want)[:200]}")
     if case.get("crlf") and o.status == "ok":
         p2 = ws.write("crlf.s", prep.text.replace("\n", "\r\n").encode())
         r2 = real.match(ws.path("rule.yaml"), p2, ret="list", search="all", only_addr=False)
